@@ -168,7 +168,7 @@ def _run_property(ctx):
             ctx.count('law-input:minor-changed')
         for a in [mergelib.Args('inline'), rng.choice(combos)] + ([rng.choice(combos)] if ctx.tier != 'quick' else []):
             laws_notebook(ctx, b, x, a, mergelib.RENDERERS[t % 3])
-    for t in range(130 if ctx.tier == 'quick' else 1500):
+    for t in range(170 if ctx.tier == 'quick' else 1500):
         b, l, r, kinds = gen_nb.any_triple(rng)
         for a in [mergelib.Args('inline'), rng.choice(combos)]:
             symmetry_notebook(ctx, b, l, r, a, mergelib.RENDERERS[t % 3], kinds)
